@@ -559,7 +559,6 @@ impl Group {
         key_name: &Name<Bytes>,
         key_tag: u16,
     ) -> bool {
-        let ts_now = Timestamp::now();
         let rtype = self.rtype();
         let owner = self.owner();
         let labels = owner.iter().count() - 1;
@@ -597,14 +596,9 @@ impl Group {
             return false;
         }
 
-        // RFC 4035, Section 5.3.1:
-        // - The validator's notion of the current time MUST be less than or
-        //   equal to the time listed in the RRSIG RR's Expiration field.
-        // - The validator's notion of the current time MUST be greater than or
-        //   equal to the time listed in the RRSIG RR's Inception field.
-        if ts_now > rrsig.expiration() || ts_now < rrsig.inception() {
-            return false;
-        }
+        // The validity period of the signature is checked by
+        // check_sig_cached: the result of this function is cached and must
+        // not depend on the current time.
 
         // RFC 4035, Section 5.3.1:
         // - The RRSIG RR's Signer's Name, Algorithm, and Key Tag fields MUST
@@ -648,6 +642,20 @@ impl Group {
         key_tag: u16,
         cache: &SigCache,
     ) -> bool {
+        // RFC 4035, Section 5.3.1:
+        // - The validator's notion of the current time MUST be less than or
+        //   equal to the time listed in the RRSIG RR's Expiration field.
+        // - The validator's notion of the current time MUST be greater than or
+        //   equal to the time listed in the RRSIG RR's Inception field.
+        //
+        // This has to be checked every time, the cache below only knows
+        // whether the signature was valid when it was first seen.
+        let ts_now = Timestamp::now();
+        let rrsig = sig.data();
+        if ts_now > rrsig.expiration() || ts_now < rrsig.inception() {
+            return false;
+        }
+
         let mut signed_data = Vec::<u8>::new();
         sig.data()
             .signed_data(&mut signed_data, &mut self.rr_set())
